@@ -2,6 +2,7 @@ package main
 
 import (
 	"fmt"
+	"go/types"
 	"sort"
 	"strings"
 
@@ -589,4 +590,345 @@ func ruleC12ExecCallers(c *Ctx) {
 	if n < 4 {
 		c.Unknown("c12.exec-callers", "(*Query).exec", c.P.Pos(exec.Pos()), fmt.Sprintf("only %d call sites of exec found (4 confirmed by reading)", n))
 	}
+}
+
+func init() { register("C12", ruleC12ThunkResolved, ruleC12MarkerKey, ruleC12MarkerValue) }
+
+// ruleC12ThunkResolved: a lazy CTE entry never becomes a column value.
+func ruleC12ThunkResolved(c *Ctx) {
+	c.Doc("c12.thunk-resolved", "the CTE registry shares its map with the `dual` row and the enclosing document, so a row value can be a lazy CTE thunk: (a) the star copy of the projection stores a row value only when it is not a CteEvaluation (type test false on every path to the store); (b) the unwrapper's ColumnName arm returns the value read from the row only when it is not a CteEvaluation — a thunk is evaluated and its results returned")
+	proj := c.theFunc("projection", "*sqlparser.SelectExprs", "SelectExpr")
+	if proj == nil {
+		c.Unknown("c12.thunk-resolved", "SelectExpr", "-", "anchor lost")
+	} else {
+		row := paramNameOfType(proj, "Map")
+		n := 0
+		allInstrs(proj, func(b *ssa.BasicBlock, in ssa.Instruction) {
+			mu, ok := in.(*ssa.MapUpdate)
+			if !ok {
+				return
+			}
+			vx, ok := mu.Value.(*ssa.Extract)
+			if !ok || vx.Index != 2 {
+				return
+			}
+			nx, ok := vx.Tuple.(*ssa.Next)
+			if !ok {
+				return
+			}
+			if p, isP := nx.Iter.(*ssa.Range).X.(*ssa.Parameter); !isP || p.Name() != row {
+				return
+			}
+			n++
+			excluded := false
+			for _, fc := range factsAt(b) {
+				ex, isEx := fc.cond.(*ssa.Extract)
+				if !isEx || ex.Index != 1 || fc.truth {
+					continue
+				}
+				if ta, isTA := ex.Tuple.(*ssa.TypeAssert); isTA && ta.X == ssa.Value(vx) && isThunkType(ta.AssertedType) {
+					excluded = true
+				}
+			}
+			c.Check(excluded, "c12.thunk-resolved", c.P.funcKey(proj)+"/star-copy", c.P.Pos(mu.Pos()), "a row value is copied only when it is not a lazy CTE", "the star copy stores every row value, including the lazy CTE thunks the registry shares with the `dual` row: a func value enters the result")
+		})
+		if n == 0 {
+			c.Unknown("c12.thunk-resolved", c.P.funcKey(proj)+"/star-copy", c.P.Pos(proj.Pos()), "anchor lost: no star copy loop")
+		}
+	}
+	f := c.P.Func(modPath, "ValueOf")
+	if f == nil {
+		c.Unknown("c12.thunk-resolved", "ValueOf", "-", "anchor lost")
+		return
+	}
+	paths, err := WalkFunc(f, WalkCfg{MaxVisits: 1})
+	if err != nil {
+		c.Unknown("c12.thunk-resolved", "ValueOf", c.P.Pos(f.Pos()), err.Error())
+		return
+	}
+	var why []string
+	nPlain, nThunk, nDoc := 0, 0, 0
+	for _, p := range paths {
+		if p.Exit != "return" || len(p.Ret) != 2 {
+			continue
+		}
+		isCol := false
+		thunkTest, thunkIs := false, false
+		mapTest, mapIs := false, false
+		for _, k := range p.Order {
+			kt := p.KeyTerm[k]
+			if kt == nil || kt.Op != "ext" || kt.Name != "1" || kt.Args[0].Op != "assertok" {
+				continue
+			}
+			v, _ := p.Assumed(k)
+			if kt.Args[0].Name == "ColumnName" && v {
+				isCol = true
+			}
+			if (kt.Args[0].Name == "CteEvaluation" || kt.Args[0].Name == "func() (any, error)") && strings.Contains(kt.Args[0].Args[0].String(), "ExecReader(") {
+				thunkTest, thunkIs = true, v
+			}
+			if kt.Args[0].Name == "Map" && strings.Contains(kt.Args[0].Args[0].String(), "ExecReader(") {
+				mapTest, mapIs = true, v
+			}
+		}
+		if !isCol {
+			continue
+		}
+		if mapTest && mapIs && p.Ret[1].Nil {
+			nDoc++
+			a, isPlain := callArgs(p.Ret[0].T, "PlainDocument")
+			if !isPlain || len(a) != 1 || !strings.Contains(a[0].String(), "ExecReader(") {
+				why = append(why, "a column whose value is a document yields "+avString(p.Ret[0])+" instead of its plain view")
+			}
+			continue
+		}
+		r := ext0(p.Ret[0].T)
+		if _, isReader := callArgs(r, "ExecReader"); r != nil && isReader && p.Ret[1].Nil {
+			// the raw value read from the row is returned
+			nPlain++
+			if !thunkTest || thunkIs {
+				why = append(why, "a column reference returns the value read from the row without excluding a lazy CTE thunk")
+			}
+			if !mapTest || mapIs {
+				why = append(why, "a column reference returns a document read from the row as it is (it may be the enclosing document holding `<-` or the CTE registry)")
+			}
+		}
+		if thunkTest && thunkIs {
+			nThunk++
+			if r == nil || r.Op != "call" || r.Name != "dyn" {
+				why = append(why, "a column that resolves to a lazy CTE yields "+avString(p.Ret[0])+" instead of the thunk's results")
+			}
+		}
+	}
+	if nPlain == 0 || nThunk == 0 || nDoc == 0 {
+		why = append(why, fmt.Sprintf("paths: plain=%d thunk=%d document=%d", nPlain, nThunk, nDoc))
+	}
+	c.plainDocument()
+	c.Check(len(why) == 0, "c12.thunk-resolved", "ValueOf/ColumnName", c.P.Pos(f.Pos()), "thunk => evaluated; otherwise the value read", strings.Join(uniq(why), "; "))
+}
+
+func isThunkType(t types.Type) bool {
+	s := shortType(t)
+	if s == "CteEvaluation" || s == "func() (any, error)" {
+		return true
+	}
+	sig, ok := t.Underlying().(*types.Signature)
+	if !ok || sig.Params().Len() != 0 || sig.Results().Len() != 2 {
+		return false
+	}
+	_, isIface := sig.Results().At(0).Type().Underlying().(*types.Interface)
+	return isIface && sig.Results().At(1).Type().String() == "error"
+}
+
+// cellOf: the local cell a value is loaded from (captured variables live in cells), else the value itself.
+func cellOf(v ssa.Value) ssa.Value {
+	if ld, ok := v.(*ssa.UnOp); ok {
+		if al, isAl := ld.X.(*ssa.Alloc); isAl {
+			return al
+		}
+	}
+	return v
+}
+
+// ruleC12MarkerKey: no item is stored under the reserved key.
+func ruleC12MarkerKey(c *Ctx) {
+	c.Doc("c12.marker-key", "projection: the store of an item's value under its name is dominated by name != \"<-\" (an unaliased `<-` column, or an alias `<-`, is rejected): no output row carries the navigation key as a column")
+	f := c.theFunc("projection", "*sqlparser.SelectExprs", "SelectExpr")
+	if f == nil {
+		c.Unknown("c12.marker-key", "SelectExpr", "-", "anchor lost")
+		return
+	}
+	n := 0
+	for _, g := range withClosures(f) {
+		allInstrs(g, func(b *ssa.BasicBlock, in ssa.Instruction) {
+			mu, ok := in.(*ssa.MapUpdate)
+			if !ok {
+				return
+			}
+			ks := NewTB().Of(mu.Key).String()
+			if !strings.Contains(ks, "ColumnName(") || strings.Contains(ks, "Sprintf") {
+				return
+			}
+			n++
+			if g != f {
+				// the post-processor re-stores under the same captured name: covered by the guard at registration
+				return
+			}
+			guard := false
+			for _, fc := range relFacts(factsAt(b)) {
+				if fc.r != relNE {
+					continue
+				}
+				if s, isS := constString(fc.y); isS && s == "<-" && NewTB().Of(fc.x).String() == ks {
+					guard = true
+				}
+			}
+			c.Check(guard, "c12.marker-key", c.P.funcKey(f)+"/item-store", c.P.Pos(mu.Pos()), "reached only when the name is not `<-`", "an item can be stored under the key `<-` (unaliased `<-` column or alias `<-`): the navigation key appears in a result row")
+		})
+	}
+	if n == 0 {
+		c.Unknown("c12.marker-key", c.P.funcKey(f)+"/item-store", c.P.Pos(f.Pos()), "anchor lost: no store of an item under its name")
+	}
+}
+
+// ruleC12MarkerValue: what `<-` itself evaluates to.
+func ruleC12MarkerValue(c *Ctx) {
+	c.Doc("c12.marker-value", "the value BackwardNavigation stores under `<-` can be selected as a column (`SELECT `<-` AS up`): it must be plain data. It is query.data, which is (i) the CTE registry when the statement has a WITH clause (the CTE builder stores thunks into the map it assigns to query.data) and (ii) for a nested row-scoped subquery the enclosing scoped row, which itself carries `<-` (the subquery sites pass BackwardNavigation's result to Prepare as data)")
+	bn := c.P.Func(modPath, "BackwardNavigation")
+	if bn == nil {
+		c.Unknown("c12.marker-value", "BackwardNavigation", "-", "anchor lost")
+		return
+	}
+	c.Fn("BackwardNavigation")
+	// the value stored under "<-"
+	var val *Term
+	var pos string
+	allInstrs(bn, func(_ *ssa.BasicBlock, in ssa.Instruction) {
+		if mu, ok := in.(*ssa.MapUpdate); ok {
+			if s, isS := constString(mu.Key); isS && s == "<-" {
+				val, pos = NewTB().Of(mu.Value), c.P.Pos(mu.Pos())
+			}
+		}
+	})
+	if val == nil {
+		c.Unknown("c12.marker-value", "BackwardNavigation/<-", c.P.Pos(bn.Pos()), "anchor lost: no store under `<-`")
+		return
+	}
+	isQueryData := val.Op == "field" && val.Name == "data"
+	// (i) a map that receives thunk values is stored into Query.data
+	registry := ""
+	for _, f := range c.P.ModFuncs {
+		thunkMaps := map[ssa.Value]bool{}
+		allInstrs(f, func(_ *ssa.BasicBlock, in ssa.Instruction) {
+			if mu, ok := in.(*ssa.MapUpdate); ok {
+				v := mu.Value
+				if mi, isMI := v.(*ssa.MakeInterface); isMI {
+					v = mi.X
+				}
+				if isThunkType(v.Type()) {
+					thunkMaps[cellOf(mu.Map)] = true
+				}
+			}
+		})
+		if len(thunkMaps) == 0 {
+			continue
+		}
+		allInstrs(f, func(_ *ssa.BasicBlock, in ssa.Instruction) {
+			if st, ok := in.(*ssa.Store); ok {
+				if fa, isFa := st.Addr.(*ssa.FieldAddr); isFa && fieldName(fa.X.Type(), fa.Field) == "data" && thunkMaps[cellOf(st.Val)] {
+					registry = c.P.funcKey(f) + " " + c.P.Pos(st.Pos())
+				}
+			}
+		})
+	}
+	// (ii) BackwardNavigation's result is passed to Prepare as data
+	nested := ""
+	for _, f := range c.P.ModFuncs {
+		allInstrs(f, func(_ *ssa.BasicBlock, in ssa.Instruction) {
+			call, ok := in.(*ssa.Call)
+			if !ok || call.Common().StaticCallee() == nil || call.Common().StaticCallee().Name() != "Prepare" || len(call.Call.Args) == 0 {
+				return
+			}
+			if strings.Contains(NewTB().Of(call.Call.Args[0]).String(), "BackwardNavigation(") {
+				nested = c.P.funcKey(f) + " " + c.P.Pos(call.Pos())
+			}
+		})
+	}
+	bad := isQueryData && (registry != "" || nested != "")
+	if bad && c.valueOfSanitisesDocuments() {
+		c.Pass("c12.marker-value", "BackwardNavigation/<-", pos, "`<-` holds engine state ("+registry+"; "+nested+"), but a document read as a column value passes through PlainDocument (c12.thunk-resolved @ ValueOf/ColumnName, c12.plain-document)")
+		return
+	}
+	c.Check(!bad, "c12.marker-value", "BackwardNavigation/<-", pos, "the value under `<-` is plain data", fmt.Sprintf("`<-` evaluates to query.data, which can be the CTE registry holding lazy thunks (%s) or an enclosing scoped row that carries `<-` itself (%s): selecting `<-` as a column hands that out", registry, nested))
+}
+
+
+// valueOfSanitisesDocuments: ValueOf calls PlainDocument on the value read by ExecReader.
+func (c *Ctx) valueOfSanitisesDocuments() bool {
+	f := c.P.Func(modPath, "ValueOf")
+	pd := c.P.Func(modPath, "PlainDocument")
+	if f == nil || pd == nil {
+		return false
+	}
+	found := false
+	allInstrs(f, func(_ *ssa.BasicBlock, in ssa.Instruction) {
+		if call, ok := in.(*ssa.Call); ok && call.Common().StaticCallee() == pd && strings.Contains(NewTB().Of(call.Call.Args[0]).String(), "ExecReader(") {
+			found = true
+		}
+	})
+	return found
+}
+
+// plainDocument: the sanitiser's own obligations.
+func (c *Ctx) plainDocument() {
+	c.Doc("c12.plain-document", "PlainDocument: the document itself is returned only on paths where no entry is a lazy CTE and no key is `<-`; in the copy, an entry is stored only when its key is not `<-` and its value is not a lazy CTE, under its own key with its own value")
+	f := c.P.Func(modPath, "PlainDocument")
+	if f == nil {
+		c.Unknown("c12.plain-document", "PlainDocument", "-", "anchor lost")
+		return
+	}
+	c.Fn("PlainDocument")
+	doc := f.Params[0].Name()
+	var why []string
+	n := 0
+	allInstrs(f, func(b *ssa.BasicBlock, in ssa.Instruction) {
+		mu, ok := in.(*ssa.MapUpdate)
+		if !ok {
+			return
+		}
+		n++
+		kx, isK := mu.Key.(*ssa.Extract)
+		vx, isV := mu.Value.(*ssa.Extract)
+		if !isK || !isV || kx.Tuple != vx.Tuple || kx.Index != 1 || vx.Index != 2 {
+			why = append(why, "the copy does not store an entry under its own key with its own value")
+			return
+		}
+		notMarker, notThunk := false, false
+		for _, fc := range relFacts(factsAt(b)) {
+			if fc.x == ssa.Value(kx) && fc.r == relNE {
+				if s, isS := constString(fc.y); isS && s == "<-" {
+					notMarker = true
+				}
+			}
+		}
+		for _, fc := range factsAt(b) {
+			if ex, isEx := fc.cond.(*ssa.Extract); isEx && ex.Index == 1 && !fc.truth {
+				if ta, isTA := ex.Tuple.(*ssa.TypeAssert); isTA && ta.X == ssa.Value(vx) && isThunkType(ta.AssertedType) {
+					notThunk = true
+				}
+			}
+		}
+		if !notMarker || !notThunk {
+			why = append(why, fmt.Sprintf("the copy can store an engine entry (marker excluded=%v, lazy CTE excluded=%v)", notMarker, notThunk))
+		}
+	})
+	if n != 1 {
+		why = append(why, fmt.Sprintf("%d stores into the copy (1 expected)", n))
+	}
+	paths, err := WalkFunc(f, WalkCfg{MaxVisits: 2, MaxPaths: 4000})
+	if err != nil {
+		c.Unknown("c12.plain-document", "PlainDocument", c.P.Pos(f.Pos()), err.Error())
+		return
+	}
+	nSelf := 0
+	for _, p := range paths {
+		if p.Exit != "return" || len(p.Ret) != 1 || p.Ret[0].T == nil || !(p.Ret[0].T.Op == "param" && p.Ret[0].T.Name == doc) {
+			continue
+		}
+		nSelf++
+		for k, v := range p.Asg {
+			kt := p.KeyTerm[k]
+			if kt == nil || !isTrueC(v) {
+				continue
+			}
+			if kt.Op == "ext" && kt.Name == "1" && kt.Args[0].Op == "assertok" && (kt.Args[0].Name == "CteEvaluation" || kt.Args[0].Name == "func() (any, error)") {
+				why = append(why, "the document itself is returned although an entry is a lazy CTE")
+			}
+			if kt.Op == "bin" && kt.Name == "==" && strings.Contains(kt.String(), `c:"<-"`) {
+				why = append(why, "the document itself is returned although it holds the key `<-`")
+			}
+		}
+	}
+	_ = nSelf
+	c.Check(len(why) == 0, "c12.plain-document", "PlainDocument", c.P.Pos(f.Pos()), "self only when plain; the copy excludes `<-` and lazy CTEs", strings.Join(uniq(why), "; "))
 }
